@@ -30,7 +30,7 @@ TEST_DIRS_THOROUGH = TEST_DIRS_QUICK + [
 
 # attempts per program in the quick tier (the plan is shuffled with the seed,
 # so a prefix is an unbiased sample of trans x node x option)
-QUICK_QUOTA = {"generic": 4000, "nemo": 4000, "lfric-multikernel-dm": 3500,
+QUICK_QUOTA = {"generic": 4000, "nemo": 4000, "bounds": 3000, "lfric-multikernel-dm": 3500,
                "lfric-builtin-nodm": 3500, "gocean-two-kernels": 3500}
 CHUNK = 350
 
@@ -196,6 +196,14 @@ def _driver_jobs(tier):
         if prog in ("generic", "nemo"):
             fresh = [a for a in attempts if a[1][0] == "node" and a[2] is not None
                      and a[2] != {"force": True}][:1500 if tier == "quick" else None]
+            planned[prog]["fresh_tree_attempts"] = len(fresh)
+            for k in range(0, len(fresh), CHUNK):
+                jobs.append((prog, 10000 + k // CHUNK, fresh[k:k + CHUNK], 0,
+                             8 if tier == "quick" else 1))
+        if prog == "bounds":
+            # small program: every transformation on every node of a FRESH tree
+            allatt = c26_driver.plan(prog, "thorough")[0]
+            fresh = [a for a in allatt if a[1][0] == "node" and a[2] is None]
             planned[prog]["fresh_tree_attempts"] = len(fresh)
             for k in range(0, len(fresh), CHUNK):
                 jobs.append((prog, 10000 + k // CHUNK, fresh[k:k + CHUNK], 0,
